@@ -3,7 +3,7 @@ import json
 from ..common import *
 from .. import proofgate, composer, widgets, rootfind
 
-THEOREMS = ["C10_logic_layout", "C10_logic_table", "C10_logic_rows_sound", "C10_logic_sound"]
+THEOREMS = ["C10_logic_layout", "C10_logic_table", "C10_logic_rows_sound", "C10_logic_sound", "C10_logic_rows_complete", "C10_logic_complete"]
 FIRST = 6
 
 def nw(nb): return nb // 2 if nb % 2 == 0 else (nb - 1) // 2 + 3
